@@ -524,7 +524,7 @@ func evalForFd(fm *Frame, op valuesOp, closeOK bool, what string) (int, error) {
 		return 2, nil
 	}
 	var fd int
-	if vals.ScanToGo(value, &fd) == nil {
+	if vals.ScanToGo(value, &fd) == nil && fd >= 0 {
 		return fd, nil
 	} else if value == "-" && closeOK {
 		return -1, nil
